@@ -16,7 +16,9 @@ RULE = (
     "current dims: map, reduce with a user function, sum/mean/std/min/max/prod (every dim of size >= 2, batch_size 0..size+2, "
     "keep_dim both), stack/concatenate/flatten (axis), expand (every insertion axis, dim_size or coordinate list), select/isel, "
     "broadcast against an action with an extra dim before or after, join, arithmetic with scalars and with other actions (equal "
-    "and different coordinate values), transform, generators with yields. After every operation the graph is evaluated by a plain "
+    "and different coordinate values, an operand holding its dimensions in another order), map with per-node payload arrays, "
+    "calls relying on the default dimension, negative internal_dim, transform, generators with yields. After every operation -- and "
+    "again for every intermediate action once the whole program has been built (a later call must not change an earlier action) -- the graph is evaluated by a plain "
     "substitution interpreter and compared at every coordinate with a NumPy model of the stacked source array, together with dims "
     "and coordinate values. non-trivial = >=2 operations containing a reduction/concatenation with 1 < batch_size < size, or a "
     "broadcast/expand/transform whose new dimension is not last; distinct = fingerprint of the program"
